@@ -76,6 +76,39 @@ ASSUMPTIONS = [
     "deeper is reported as an analysis error, not guessed",
 ]
 
+EXPLANATION += (
+    " R7.7 (rules/c07_visibility.py): the entry points the property is observed "
+    "at obtain their answer from the solver on every path. Producers - "
+    "Binding::IsVisible, CFGNode::HasCombination and any other bool function of "
+    "typegraph.{h,cc} that returns a Solver::Solve result: every `return` is the "
+    "value of Solver::Solve called on Program::GetSolver() (directly, through a "
+    "once-bound local, or by delegation to another producer); a literal, a "
+    "reachability test or a combination of the solver's answer with anything "
+    "else is a violation (the single-binding / origin-reachable shortcut of "
+    "Variable::Prune must not leak into the exact queries); the query must be "
+    "the function's own - IsVisible(viewpoint) asks ({this}, viewpoint), "
+    "HasCombination(bindings) asks (bindings, this) - read off the leaves "
+    "(this / parameters, looking only through conversions, braces and container "
+    "construction) of the two arguments, mapped through delegation. Strict "
+    "filter: Variable::Filter is executed symbolically (if/else with &&, ||, ! "
+    "split into path alternatives, guard-clause `continue`, hoisted once-bound "
+    "flags, index or range-for loop) and every push_back into the returned "
+    "vector must happen on a path on which IsVisible(viewpoint) of that same "
+    "element is true, or on the triaged approximation `!strict && "
+    "bindings_.size() == 1`; callers taking (viewpoint, strict) themselves "
+    "(FilteredData) forward both unchanged; cfg.cc's IsVisible / "
+    "HasCombination call the producer of the same name. Blind spots of R7.7: "
+    "Variable::Prune and CanHaveCombination are approximations by design and "
+    "not examined; a result kept in a reassigned local, a Solve call on "
+    "something other than GetSolver(), or a result vector not filled by "
+    "push_back are analysis errors.")
+ASSUMPTIONS += [
+    "R7.7: a shortcut that answers an exact query without the solver is "
+    "reported even if it happens to be semantically equivalent (e.g. `no "
+    "origins -> false`): equivalence with the solver cannot be decided "
+    "statically, and the property is stated about the solver's semantics",
+]
+
 SC = "pytype/typegraph/solver.cc"
 
 
